@@ -19,11 +19,13 @@
 package crypto
 
 import (
+	"bytes"
 	"context"
 	"crypto"
 	"crypto/ecdsa"
 	"crypto/ed25519"
 	"crypto/rsa"
+	"encoding/base64"
 	"encoding/json"
 	"errors"
 	"fmt"
@@ -155,6 +157,9 @@ func JWTKidAlg(tokenString string) (string, jwa.SignatureAlgorithm, error) {
 	if err != nil {
 		return "", "", err
 	}
+	if err := CheckCompactJWS([]byte(tokenString)); err != nil {
+		return "", "", err
+	}
 
 	if len(j.Signatures()) != 1 {
 		return "", "", errors.New("incorrect number of signatures in JWT")
@@ -163,6 +168,23 @@ func JWTKidAlg(tokenString string) (string, jwa.SignatureAlgorithm, error) {
 	sig := j.Signatures()[0]
 	hdrs := sig.ProtectedHeaders()
 	return hdrs.KeyID(), hdrs.Algorithm(), nil
+}
+
+// CheckCompactJWS returns an error unless the token is a JWS in the compact serialization of which every segment is
+// canonical base64url (RFC 7515: URL-safe alphabet, no padding, no stray bits). The JOSE library decodes the segments
+// leniently, also accepts the JSON serializations, and verifies the signature over its own re-encoding of the decoded
+// segments: only for a token in this form the bytes that were received are the bytes that were verified.
+func CheckCompactJWS(token []byte) error {
+	segments := bytes.Split(token, []byte{'.'})
+	if len(segments) != 3 {
+		return errors.New("token is not a JWS in compact serialization")
+	}
+	for _, segment := range segments {
+		if _, err := base64.RawURLEncoding.Strict().DecodeString(string(segment)); err != nil {
+			return fmt.Errorf("token is not a JWS in compact serialization: %w", err)
+		}
+	}
+	return nil
 }
 
 // PublicKeyFunc defines a function that resolves a public key based on a kid
